@@ -56,4 +56,11 @@ dispatched right after the hand-over is delivered and returned -/
 example : (run init [.start 7 1, .write 7 true, .dispatch ⟨0, 1, 42⟩, .wake 7, .finish 7]).map (·.call 7)
     = some (.done 0 1 (some ⟨0, 1, 42⟩)) := by decide
 
+
+/-- T2 structure fact shared with C19: the ids of concurrent calls are distinct because the generator is one atomic add-and-fetch
+(two calls with one id would overwrite each other's waiter: a lost or mis-routed response) -/
+theorem id_generator_atomic :
+    Gen.stmts_GetRequestIDGen = ["var id uint32", "return func() uint32 { return atomic.AddUint32(&id, 1) }"] := by
+  decide
+
 end OAP.C07
